@@ -5,7 +5,8 @@ import Skglm.Properties.C02
   The backtracking line search of the prox-Newton solver: it keeps the model-fit buffer
   consistent, an accepted step strictly decreases the objective (convex datafit, any penalty),
   and the search returns either an accepted step `2^{-k}` or — when no step is accepted within
-  the budget — the last trial point `2^{-(fuel-1)}`, which the code does not handle.
+  the budget — the starting point (the `for … else:` branch undoes the last trial step), so the
+  objective never goes up.
 -/
 namespace Skglm.PN
 open Skglm Skglm.Spec Skglm.Proofs
@@ -45,7 +46,7 @@ theorem backtrackLoop_consistent (P : CDProb ℝ n p) (oldPen : Ext ℝ) (d : PN
     (hd : DirConsistent P d) (fuel : Nat) (cur : CDState ℝ n p) (step prev : ℝ)
     (hs : Consistent P cur) : Consistent P (P.backtrackLoop oldPen d fuel cur step prev) := by
   induction fuel generalizing cur step prev with
-  | zero => exact hs
+  | zero => exact moveBy_consistent P cur d (-prev) hs hd
   | succ fuel ih =>
     unfold CDProb.backtrackLoop
     dsimp only
@@ -151,15 +152,15 @@ theorem backtrackLoop_spec (P : CDProb ℝ n p) (s0 : CDState ℝ n p) (d : PNDi
         P.lineSearchAccept s0 d (1 / 2 ^ k) = true ∧
         ∀ k', m ≤ k' → k' < k → P.lineSearchAccept s0 d (1 / 2 ^ k') = false) ∨
     ((∀ k', m ≤ k' → k' < m + fuel → P.lineSearchAccept s0 d (1 / 2 ^ k') = false) ∧
-      P.backtrackLoop (P.pen.value P.wts s0.w) d fuel cur (1 / 2 ^ m) prev
-        = match fuel with
-          | 0 => cur
-          | f + 1 => CDProb.moveBy s0 d (1 / 2 ^ (m + f))) := by
+      P.backtrackLoop (P.pen.value P.wts s0.w) d fuel cur (1 / 2 ^ m) prev = s0) := by
   induction fuel with
   | zero =>
-    intro m cur prev _
+    intro m cur prev hcur
     right
-    exact ⟨fun k' h1 h2 => absurd h2 (by omega), rfl⟩
+    refine ⟨fun k' h1 h2 => absurd h2 (by omega), ?_⟩
+    -- the `else:` branch: `s0 + prev d - prev d = s0`
+    unfold CDProb.backtrackLoop
+    rw [hcur, moveBy_moveBy, add_neg_cancel, moveBy_zero]
   | succ fuel ih =>
     intro m cur prev hcur
     have hcur' : CDProb.moveBy cur d (1 / 2 ^ m - prev) = CDProb.moveBy s0 d (1 / 2 ^ m) := by
@@ -187,23 +188,20 @@ theorem backtrackLoop_spec (P : CDProb ℝ n p) (s0 : CDState ℝ n p) (d : PNDi
         · rw [← h]; exact hm
         · exact hbefore k' (by omega) h2
       · right
-        refine ⟨fun k' h1 h2 => ?_, ?_⟩
-        · rcases Nat.eq_or_lt_of_le h1 with h | h
-          · rw [← h]; exact hm
-          · exact hall k' (by omega) (by omega)
-        · rw [hr]
-          cases fuel with
-          | zero => simp
-          | succ f => simp only; congr 3; omega
+        refine ⟨fun k' h1 h2 => ?_, hr⟩
+        rcases Nat.eq_or_lt_of_le h1 with h | h
+        · rw [← h]; exact hm
+        · exact hall k' (by omega) (by omega)
 
 /-- the line search with budget `fuel + 1` returns either the first accepted step `2^{-k}`
-    (`k ≤ fuel`), or — no step accepted — the last trial point `2^{-fuel}` -/
+    (`k ≤ fuel`), or — no step accepted — the starting point (the last trial step `2^{-fuel}` is
+    undone by the `for … else:` branch) -/
 theorem backtrack_returns (fuel : Nat) (P : CDProb ℝ n p) (s0 : CDState ℝ n p) (d : PNDir ℝ n p) :
     (∃ k, k ≤ fuel ∧ P.backtrack (fuel + 1) s0 d = CDProb.moveBy s0 d (1 / 2 ^ k) ∧
         P.lineSearchAccept s0 d (1 / 2 ^ k) = true ∧
         ∀ k', k' < k → P.lineSearchAccept s0 d (1 / 2 ^ k') = false) ∨
     ((∀ k', k' ≤ fuel → P.lineSearchAccept s0 d (1 / 2 ^ k') = false) ∧
-      P.backtrack (fuel + 1) s0 d = CDProb.moveBy s0 d (1 / 2 ^ fuel)) := by
+      P.backtrack (fuel + 1) s0 d = s0) := by
   have h := backtrackLoop_spec P s0 d (fuel + 1) 0 s0 0 (moveBy_zero s0 d).symm
   simp only [pow_zero, div_one, zero_add, Nat.zero_le, true_implies] at h
   unfold CDProb.backtrack
@@ -213,11 +211,17 @@ theorem backtrack_returns (fuel : Nat) (P : CDProb ℝ n p) (s0 : CDState ℝ n 
   · right
     exact ⟨fun k' h' => hall k' (by omega), hr⟩
 
-/-- **the line search descends or fails**: with a finite penalty value at the start and a convex
-    datafit, the point returned either has a strictly smaller objective (an accepted step), or is
-    the last trial point `s0 + 2^{-fuel} d` with *every* test failed — the exit the code leaves
-    unhandled (`for … else: pass`): in that case nothing is known about the objective there. -/
-theorem backtrack_descends_or_fails (fuel : Nat) (P : CDProb ℝ n p) (s0 : CDState ℝ n p)
+/-- with an empty budget the search does not move -/
+theorem backtrack_zero (P : CDProb ℝ n p) (s0 : CDState ℝ n p) (d : PNDir ℝ n p) :
+    P.backtrack 0 s0 d = s0 := by
+  unfold CDProb.backtrack CDProb.backtrackLoop
+  rw [neg_zero, moveBy_zero]
+
+/-- **the line search descends or stays**: with a finite penalty value at the start and a convex
+    datafit, the point returned either has a strictly smaller objective (an accepted step
+    `2^{-k}`, `k ≤ fuel`), or *every* test failed and the search is back at its starting point
+    (the `for … else:` branch undoes the last trial step `2^{-fuel}`). -/
+theorem backtrack_descends_or_stays (fuel : Nat) (P : CDProb ℝ n p) (s0 : CDState ℝ n p)
     (d : PNDir ℝ n p) (po : ℝ) (hpo : P.pen.value P.wts s0.w = .fin po)
     (hd : DirConsistent P d)
     (hsw : ∀ i, 0 ≤ P.sw i) (hN : 0 ≤ P.df.normaliser P.sw)
@@ -226,7 +230,7 @@ theorem backtrack_descends_or_fails (fuel : Nat) (P : CDProb ℝ n p) (s0 : CDSt
     (∃ k a b, k ≤ fuel ∧ P.backtrack (fuel + 1) s0 d = CDProb.moveBy s0 d (1 / 2 ^ k) ∧
         P.objective (P.backtrack (fuel + 1) s0 d) = .fin a ∧ P.objective s0 = .fin b ∧ a < b) ∨
     ((∀ k', k' ≤ fuel → P.lineSearchAccept s0 d (1 / 2 ^ k') = false) ∧
-      P.backtrack (fuel + 1) s0 d = CDProb.moveBy s0 d (1 / 2 ^ fuel)) := by
+      P.backtrack (fuel + 1) s0 d = s0) := by
   rcases backtrack_returns fuel P s0 d with ⟨k, hk, hr, hacc, _⟩ | h
   · left
     obtain ⟨v, hv, hneg⟩ := (accept_iff_test_neg P s0 d _ po hpo).1 hacc
@@ -235,4 +239,71 @@ theorem backtrack_descends_or_fails (fuel : Nat) (P : CDProb ℝ n p) (s0 : CDSt
     exact ⟨k, a, b, hk, hr, by rw [hr]; exact ha, hb, hab⟩
   · right; exact h
 
+/-- **the line search never increases the objective** (finite penalty value at the start, convex
+    datafit, consistent direction), whatever the budget and whatever the tests decide -/
+theorem backtrack_never_ascends (fuel : Nat) (P : CDProb ℝ n p) (s0 : CDState ℝ n p)
+    (d : PNDir ℝ n p) (po : ℝ) (hpo : P.pen.value P.wts s0.w = .fin po)
+    (hd : DirConsistent P d)
+    (hsw : ∀ i, 0 ≤ P.sw i) (hN : 0 ≤ P.df.normaliser P.sw)
+    (hdelta : ∀ δ, P.df = .huber δ → 0 < δ) (hgamma : P.df = .gamma → ∀ i, 0 ≤ P.y i)
+    (hlin : P.df.lin = 0) (hdb : P.fitInt = false → d.db = 0) :
+    Ext.le (P.objective (P.backtrack (fuel + 1) s0 d)) (P.objective s0) = true := by
+  rcases backtrack_descends_or_stays fuel P s0 d po hpo hd hsw hN hdelta hgamma hlin hdb with
+    ⟨k, a, b, _, _, ha, hb, hab⟩ | ⟨_, hr⟩
+  · rw [ha, hb]
+    simp only [Ext.le, decide_eq_true_eq]
+    exact le_of_lt hab
+  · rw [hr]; cases P.objective s0 <;> simp [Ext.le]
+
+/-! ### non-vacuity -/
+
+/-- `½ (w − y)² + a |w|` with one sample and one feature, started at `w = 0`, direction `+1` -/
+noncomputable def exP (y a : ℝ) : CDProb ℝ 1 1 :=
+  { X := fun _ _ => 1, y := fun _ => y, sw := fun _ => 1, df := .quadratic,
+    pen := .l1 a false, wts := fun _ => 1, fitInt := false }
+def exS : CDState ℝ 1 1 := { w := fun _ => 0, b := 0, Xw := fun _ => 0 }
+def exD : PNDir ℝ 1 1 := { dw := fun _ => 1, db := 0, Xd := fun _ => 1 }
+
+/-- the hypotheses of `backtrack_descends_or_stays` / `backtrack_never_ascends` hold together -/
+example (y a : ℝ) : (exP y a).pen.value (exP y a).wts exS.w = .fin 0 ∧ DirConsistent (exP y a) exD ∧
+    (∀ i, 0 ≤ (exP y a).sw i) ∧ 0 ≤ (exP y a).df.normaliser (exP y a).sw ∧
+    (∀ δ, (exP y a).df = .huber δ → 0 < δ) ∧ ((exP y a).df = .gamma → ∀ i, 0 ≤ (exP y a).y i) ∧
+    (exP y a).df.lin = 0 ∧ ((exP y a).fitInt = false → exD.db = 0) := by
+  refine ⟨?_, ?_, ?_, ?_, ?_, ?_, ?_, ?_⟩ <;>
+    simp [exP, exS, exD, DirConsistent, SepPen.value, esum, SepPen.pen1, Ext.add, sabs_eq,
+      Fin.foldl_succ, Fin.foldl_zero, SepPen.positive, DF.normaliser, DF.lin]
+
+theorem ex_accept_iff (y a t : ℝ) (ht : 0 < t) :
+    (exP y a).lineSearchAccept exS exD t = true ↔ a + t < y := by
+  simp [exP, exS, exD, CDProb.lineSearchAccept, CDProb.lineSearchAcceptAt, CDProb.lineSearchTestAt,
+    CDProb.moveBy, CDProb.extSub, CDProb.pnGrad, SepPen.value, esum, SepPen.pen1, DF.rawGrad,
+    DF.dloss1, DF.normaliser, vsum_eq, Ext.add, Ext.lt, sabs_eq, Fin.foldl_succ, Fin.foldl_zero,
+    SepPen.positive, abs_of_pos ht]
+  constructor <;> intro h <;> nlinarith
+
+/-- success branch: `y = 2`, `a = 1/2`: the full step is accepted -/
+example : (exP 2 (1 / 2)).backtrack 20 exS exD = CDProb.moveBy exS exD 1 := by
+  rcases backtrack_returns 19 (exP 2 (1 / 2)) exS exD with ⟨k, _, hr, _, hb⟩ | ⟨hall, _⟩
+  · rcases Nat.eq_zero_or_pos k with rfl | hk
+    · simpa using hr
+    · have := hb 0 hk
+      rw [pow_zero, div_one, Bool.eq_false_iff] at this
+      exact absurd ((ex_accept_iff 2 (1 / 2) 1 one_pos).2 (by norm_num)) this
+  · have := hall 0 (by omega)
+    rw [pow_zero, div_one, Bool.eq_false_iff] at this
+    exact absurd ((ex_accept_iff 2 (1 / 2) 1 one_pos).2 (by norm_num)) this
+
+/-- failure branch: `y = 0`, `a = 1` (`+1` is an ascent direction): every test fails and the
+    search is back at the start -/
+example : (∀ k : Nat, (exP 0 1).lineSearchAccept exS exD (1 / 2 ^ k) = false) ∧
+    (exP 0 1).backtrack 20 exS exD = exS := by
+  have hall : ∀ k : Nat, (exP 0 1).lineSearchAccept exS exD (1 / 2 ^ k) = false := by
+    intro k
+    have ht : (0 : ℝ) < 1 / 2 ^ k := by positivity
+    rw [Bool.eq_false_iff, Ne, ex_accept_iff 0 1 _ ht]
+    linarith
+  refine ⟨hall, ?_⟩
+  rcases backtrack_returns 19 (exP 0 1) exS exD with ⟨k, _, _, hacc, _⟩ | ⟨_, h⟩
+  · rw [hall k] at hacc; cases hacc
+  · exact h
 end Skglm.PN
